@@ -273,14 +273,15 @@ NoEsc(v, st, ev) ==
                        ELSE Eff(old.users[u], Thr(old, "users_default"))
         newLevel(u) == Eff(new.users[u], Thr(new, "users_default"))
         \* requirement a per-type entry imposes on state / non-state events of that type
-        effS(c, k) == Eff(c.events[k], Thr(c, "state_default"))
-        effM(c, k) == Eff(c.events[k], Thr(c, "events_default"))
+        \* (an entry for m.room.third_party_invite never takes effect: that type is sent at the invite level, rule 7)
+        effS(c, k) == IF k = "tpi" THEN Thr(c, "invite") ELSE Eff(c.events[k], Thr(c, "state_default"))
+        effM(c, k) == IF k = "tpi" THEN Thr(c, "invite") ELSE Eff(c.events[k], Thr(c, "events_default"))
     IN
     \* no threshold set above the sender's level / nothing above the sender's level changed
     /\ \A k \in ScalarKeys : Thr(old, k) # Thr(new, k) => (Thr(new, k) <= s /\ Thr(old, k) <= s)
     /\ \A k \in EvKeys :
          LET ro == old.events[k]  rn == new.events[k]
-             realChange == effS(old, k) # effS(new, k) \/ effM(old, k) # effM(new, k) IN
+             realChange == IF k = "tpi" THEN ro # rn ELSE effS(old, k) # effS(new, k) \/ effM(old, k) # effM(new, k) IN
          /\ (rn # Absent /\ rn # ro /\ realChange => rn <= s)
          /\ (ro # Absent /\ rn # ro /\ realChange => ro <= s)
          \* the level needed to send the type as a message event: an entry that is added, changed or removed must
